@@ -853,7 +853,7 @@ def _stats_contrib(aspect, config, c, key, cnt, sel):
         x["q"] = (cnt, cnt + 1)
         x["nq"] = (cnt + 2, 3)
         x["wa"] = (cnt, cnt + key)
-        x["filtered"] = cnt + c
+        x["filtered"] = cnt          # may be 0 in every chunk: an active filter that discards nothing keeps its entry (with 0)
         x["rc"] = cnt + 1
         x["bp1"] = key * 3 + cnt
         x["bp2"] = key * 2
